@@ -17,7 +17,8 @@ STRINGIFIERS = ("each", "map", "filter", "sorted", "call")
 SPAWNS = ["go", "spawn", "fnspawn"]
 
 # shapes: ("K",) skip | ("T",) tick | ("M",) mark | ("B", blk) | ("S", a, b) | ("F", body) | ("C", cbk, n, body)
-#         | ("W", kind, body) spawn | ("D", d, body)
+#         | ("W", kind, body) spawn | ("D", d, body) | ("X", pre, body): a function that defers a function running `body` and
+#         then runs `pre` (for the model: a call that runs pre, then body)
 
 
 def toks(s):
@@ -36,6 +37,8 @@ def toks(s):
         return ["W"] + toks(s[2])
     if t == "D":
         return ["D", str(s[1])] + toks(s[2])
+    if t == "X":
+        return ["D", "1", "S"] + toks(s[1]) + toks(s[2])
     raise ValueError(s)
 
 
@@ -85,7 +88,52 @@ def src(s, ind=""):
         for _ in range(s[1]):
             x = ind + "(func() {\n" + x + "\n" + ind + "})()"
         return x
+    if t == "X":
+        pre = src(s[1], ind + "  ")
+        return (ind + "(func() {\n" + ind + "  defer func() {\n" + src(s[2], ind + "    ") + "\n" + ind + "  }()\n"
+                + (pre + "\n" if pre else "") + ind + "})()")
     raise ValueError(s)
+
+
+def terminates(s):
+    t = s[0]
+    if t in ("K", "T", "M", "W"):
+        return True
+    if t in ("B", "F"):
+        return False
+    if t == "S" or t == "X":
+        return terminates(s[1]) and terminates(s[2])
+    if t == "C":
+        return terminates(s[3])
+    if t == "D":
+        return terminates(s[2])
+    raise ValueError(s)
+
+
+def progress(s):
+    """the program calls tick() sooner or later when nothing cancels it: some thread reaches a tick() without having to get
+    past a blocking operation or an endless loop first"""
+    t = s[0]
+    if t == "T":
+        return True
+    if t in ("K", "M", "B"):
+        return False
+    if t == "S" or t == "X":
+        return progress(s[1]) or (terminates(s[1]) and progress(s[2]))
+    if t == "F":
+        return progress(s[1])
+    if t == "C":
+        return progress(s[3])
+    if t == "W" or t == "D":
+        return progress(s[2])
+    raise ValueError(s)
+
+
+def starts_threads(s):
+    t = s[0]
+    if t == "W" or (t == "B" and s[1] == "wait"):
+        return True
+    return any(starts_threads(x) for x in s[1:] if isinstance(x, tuple))
 
 
 def program(s):
@@ -104,6 +152,9 @@ def main_part(s):
     elif t == "C":
         yield from main_part(s[3])
     elif t == "D":
+        yield from main_part(s[2])
+    elif t == "X":
+        yield from main_part(s[1])
         yield from main_part(s[2])
 
 
@@ -154,6 +205,20 @@ def base_shapes(rng, tier):
     # spawn inside a callback inside a spawn
     out.append(("spawn-in-cb", seq(("C", "each", 2, ("W", "go", LOOP)), ("M",), LOOP)))
     out.append(("cb-in-spawn-in-cb", seq(("C", "map", 1, ("W", "spawn", ("C", "filter", 2, LOOP))), ("M",), ("B", "wait"))))
+    # deferred functions: cancelled while a deferred function runs / while one is pending; threads started from a deferred
+    # function; deferred functions of thread functions and of callbacks
+    out.append(("defer-loop", ("X", ("K",), seq(("M",), LOOP))))
+    out.append(("defer-pending-loop", ("X", seq(("M",), LOOP), LOOP)))
+    out.append(("defer-pending-block", ("X", seq(("M",), ("B", "recv")), LOOP)))
+    out.append(("defer-block", seq(("X", ("T",), seq(("M",), ("B", "recv"))), LOOP)))
+    out.append(("defer-nested", ("X", ("K",), ("X", ("T",), seq(("M",), LOOP)))))
+    for c in ("each", "call", "try"):
+        out.append(("cb-%s-defer" % c, seq(("C", c, 2, ("X", ("K",), seq(("M",), LOOP))), LOOP)))
+    for k in SPAWNS:
+        out.append(("defer-%s-loop" % k, seq(("X", ("K",), ("W", k, LOOP)), ("M",), ("B", "recv"))))
+        out.append(("defer-%s-nest" % k, seq(("X", ("T",), ("W", k, seq(("W", "go", LOOP), ("B", "sleep")))), ("M",), ("F", ("K",)))))
+        out.append(("%s-defer-loop" % k, seq(("W", k, ("X", ("K",), LOOP)), ("M",), ("B", "recvm"))))
+        out.append(("%s-defer-%s" % (k, k), seq(("W", k, ("X", ("T",), ("W", k, ("X", ("K",), LOOP)))), ("M",), ("B", "wait"))))
     if tier == "thorough":
         for i in range(120):
             out.append(("rand%d" % i, random_shape(rng)))
@@ -192,7 +257,101 @@ def cases(rng, tier):
         for inst, delay in (("pre", 0), ("burst", 0), ("mark", 0), ("mark", 20000)):
             for r in range(reps):
                 out.append({"id": "%s/%s%s/%d" % (name, inst, "+20ms" if delay else "", r), "name": name, "shape": s,
-                            "instant": inst, "delay_us": delay})
+                            "instant": inst, "delay_us": delay,
+                            "need_ticks": 1 if (delay and progress(s)) else 0})
+    return out
+
+
+WARM_SRC = {
+    "spawn-wait": ("spawn(func() { wdone() }).wait()", 1),
+    "go-many": ("for i := range 40 { go func() { wdone() }() }", 40),
+    "spawn-many": ("ts := []\nfor i := range 40 { ts.append(spawn(func() { tick(); wdone() })) }\nfor _, t := range ts { t.wait() }", 40),
+    "fnspawn-many": ("f := func() { wdone() }\nfor i := range 40 { f.spawn() }", 40),
+    "nested": ("for i := range 20 { go func() { spawn(func() { wdone() }).wait(); wdone() }() }", 40),
+}
+WARM_ENDS = ["alive", "cancelled", "expired"]
+
+
+def history(rng, first_end):
+    """one or two small evaluations whose threads all finish (more threads than processors, so that whatever they leave
+    behind per processor is there for the next evaluation); the first one's context ends as asked"""
+    h = []
+    k = rng.choice(sorted(k for k in WARM_SRC if k != "spawn-wait"))
+    h.append({"src": WARM_SRC[k][0], "done": WARM_SRC[k][1], "end": first_end, "kind": k})
+    if True:
+        # the second evaluation runs after the first one's context has ended (or not): its own threads must run too
+        k2 = rng.choice(sorted(WARM_SRC))
+        h.append({"src": WARM_SRC[k2][0], "done": WARM_SRC[k2][1], "end": rng.choice(WARM_ENDS), "kind": k2})
+    return h
+
+
+def history_cases(rng, tier, plain):
+    """every case whose program starts threads, once more after a HISTORY in the same process: earlier evaluations whose
+    threads have finished and whose contexts are still alive / were cancelled / have expired.  What an evaluation leaves
+    behind in the process (pools, caches, package-level state) must not decide whether the threads of a later evaluation stop
+    with their context - nor whether they run at all (progress the scenario implies is required before the cancellation)."""
+    out = []
+    seen = set()
+    for c in plain:
+        if c["instant"] != "mark" or not c["delay_us"]:
+            continue
+        if "shape" in c and c["shape"] != ("K",):
+            if not starts_threads(c["shape"]):
+                continue
+        elif not c["name"].startswith("contend-"):
+            continue
+        ends = WARM_ENDS
+        if c["name"].startswith("contend-"):
+            if c["delay_us"] != 3000:
+                continue
+            ends = [WARM_ENDS[len(seen) % 3]]
+        seen.add(c["id"])
+        for e in ends:
+            d = dict(c)
+            d["warm"] = history(rng, e)
+            d["id"] = "%s~after-%s" % (c["id"], "+".join("%s:%s" % (w["kind"], w["end"]) for w in d["warm"]))
+            d["name"] = c["name"]
+            d["history"] = e
+            if c.get("reps"):
+                d["reps"] = max(3, c["reps"] // 5)
+            out.append(d)
+    return out
+
+
+def reuse_cases(rng, tier):
+    """the embedding `run once, then serve calls on the same VM`: vm.Run(appCtx) starts long-lived threads and returns; the
+    host makes other invocations (vm.Call under another context) on the same VM; only then the threads of the first
+    invocation go on (wait_gate()) and start goroutines of their own; then appCtx ends.  Everything the first invocation's
+    threads start - whenever - stops with appCtx.  Oracle only."""
+    out = []
+    launches = {"go": "go %s()", "spawn": "spawn(%s)", "fnspawn": "%s.spawn()"}
+    inners = {
+        "loop": "for { tick() }",
+        "cb": "[1, 2].each(func(x) { for { tick() } })",
+        "nest": "go func() { for { tick() } }()\n  for { tick() }",
+        "defer": "defer func() { for { tick() } }()",
+    }
+    handlers = {
+        "plain": "return 42",
+        "threads": "spawn(func() { return 1 }).wait()\n  return 42",
+        "cb": "return [1, 2].map(func(x) { return x })",
+    }
+    for l1 in sorted(launches):
+        for iname in sorted(inners):
+            l2 = rng.choice(sorted(launches))
+            hname = rng.choice(sorted(handlers))
+            ncalls = rng.choice([0, 1, 1, 2, 3])
+            srcs = "\n".join([
+                "rc := chan()",
+                "func inner() {\n  %s\n}" % inners[iname],
+                "func outer() {\n  wait_gate()\n  %s\n  mark()\n  <-rc\n}" % (launches[l2] % "inner"),
+                "func handler() {\n  %s\n}" % handlers[hname],
+                launches[l1] % "outer",
+            ])
+            for ctx2 in ("background", "cancelled"):
+                name = "reuse-%s-%s-%s-%s-%dcalls-%s" % (l1, l2, iname, hname, ncalls, ctx2)
+                out.append({"id": "%s/mark+20ms/0" % name, "name": name, "shape": ("K",), "src": srcs, "instant": "mark", "delay_us": 20000,
+                            "oracle_only": True, "route": "vmreuse", "calls": ["handler"] * ncalls, "ctx2": ctx2, "need_ticks": 1})
     return out
 
 
@@ -345,6 +504,8 @@ def run(res):
     cs = cases(rng, tier) + big_callback_cases(tier)
     # own random stream: the cases above stay as they were
     cs += contention_cases(C.Rng(res.seed ^ 0x636f6e74656e64), tier)
+    cs += history_cases(C.Rng(res.seed ^ 0x686973746f7279), tier, cs)
+    cs += reuse_cases(C.Rng(res.seed ^ 0x7265757365), tier)
     # every case twice: ended by an explicit cancel, and ended like an expired deadline (context.DeadlineExceeded)
     dl = []
     for c in cs:
@@ -382,7 +543,9 @@ def run(res):
     # thorough repeats under GOMAXPROCS 1, 2 and the default
     bad = malformed(rng, tier)
     ilines = [json.dumps({"id": c["id"], "src": c.get("src") or program(c["shape"]), "instant": c["instant"], "delay_us": c["delay_us"],
-                          "mode": c.get("mode", "cancel"), "reps": c.get("reps", 1)}) for c in cs]
+                          "mode": c.get("mode", "cancel"), "reps": c.get("reps", 1), "warm": c.get("warm", []),
+                          "need_ticks": c.get("need_ticks", 0), "route": c.get("route", ""), "calls": c.get("calls", []),
+                          "ctx2": c.get("ctx2", "")}) for c in cs]
     ilines += [json.dumps({"id": c["id"], "src": c["src"], "instant": c["instant"], "delay_us": 0}) for c in bad]
     procs = [None] if tier == "quick" else [None, "1", "2"]
     impl_runs = []
@@ -408,6 +571,14 @@ def run(res):
         # it is judged as it is)
         slow = [cid for cid, f in out.items() if not f[0].startswith("SKIPPED") and len(f) == 11 and f[10] == "-"
                 and (f[0] != "true" or int(f[1]) > 2000000 or f[9] != "true")]
+        # "the threads made no progress" is a bounded wait too: confirmed alone, in a fresh process (the case carries its own
+        # history); a few confirmations are enough, the others are dropped
+        noprog = sorted(cid for cid, f in out.items() if f[0].startswith("WARMFAIL") or (len(f) == 11 and "NOPROGRESS" in f[2]))
+        # first those whose own history can explain it (an evaluation after one whose context has ended)
+        noprog.sort(key=lambda cid: (0 if ":alive" not in cid.split("~after-")[-1].split("+")[0] else 1, cid))
+        for cid in noprog[6:]:
+            out[cid] = ["SKIPPED-NOPROGRESS-UNCONFIRMED"]
+        slow = noprog[:6] + [x for x in slow if x not in noprog]
         for cid in slow[:100]:
             rc2, o2, e2 = run_lines(obs, [by_id[cid]], env=env)
             for line in o2.splitlines():
@@ -438,17 +609,30 @@ def run(res):
             if f[0].startswith("SKIPPED"):
                 skipped += 1
                 continue
+            if f[0].startswith("WARMFAIL"):
+                k = int(f[0].split("-")[1])
+                oracle_viol.append({"case": c["id"], "ended_by": c.get("mode", "cancel"), "src": c.get("src") or program(c["shape"]),
+                                    "instant": c["instant"], "delay_us": c["delay_us"], "gomaxprocs": gmp, "history": c.get("warm", []),
+                                    "need_ticks": c.get("need_ticks", 0), "route": c.get("route", ""), "calls": c.get("calls", []),
+                                    "ctx2": c.get("ctx2", ""),
+                                    "why": "evaluation %d of the history (%s) returned without an error, but the threads it started never "
+                                           "reached their last statement (wdone() calls missing after 4 s, context alive): what earlier "
+                                           "evaluations left behind in the process keeps the threads of a later one from running" % (
+                                               k, c["warm"][k]["src"])})
+                continue
             returned, lat_us, ec, val, t_ret, t_b, t_c, g0, g_after, settled, stuck = f
             evals += 1
             nomark = "NOMARK" in ec
             earlydone = "EARLYDONE" in ec       # the evaluation had ended before the cancellation was issued
+            noprogress = "NOPROGRESS" in ec
             if earlydone:
                 cov["ended_before_cancellation"] = cov.get("ended_before_cancellation", 0) + 1
             ec = ec.split(" ")[0]
             errhist[ec] = errhist.get(ec, 0) + 1
             m = model_out[c["mkey"]] if c["mkey"] else None
             info = {"case": c["id"], "ended_by": c.get("mode", "cancel"), "shape": toks(c["shape"]), "src": c.get("src") or program(c["shape"]), "instant": c["instant"], "delay_us": c["delay_us"],
-                    "gomaxprocs": gmp, "repetitions": c.get("reps", 1), "observed": {"returned": returned, "latency_us": int(lat_us), "err": ec, "value": val,
+                    "gomaxprocs": gmp, "repetitions": c.get("reps", 1), "history": c.get("warm", []), "need_ticks": c.get("need_ticks", 0),
+                    "route": c.get("route", ""), "calls": c.get("calls", []), "ctx2": c.get("ctx2", ""), "observed": {"returned": returned, "latency_us": int(lat_us), "err": ec, "value": val,
                                                     "ticks": [int(t_ret), int(t_b), int(t_c)], "goroutines": [int(g0), int(g_after)],
                                                     "settled": settled}, "model": m}
             # ---- oracle: the property itself
@@ -458,6 +642,12 @@ def run(res):
                 why = ("%s after the context ended: goroutine(s) running risor code are parked in an operation that no context can interrupt "
                        "(same state in two goroutine dumps; <goroutine>:<state>:<innermost risor frame>): %s" % (
                            "risor.Eval has not returned" if returned != "true" else "goroutines the evaluation started are left behind", stuck))
+            elif c.get("route") == "vmreuse" and ec != "nil":
+                why = "the host's sequence vm.Run / vm.Call on one VM failed: %s" % ec
+            elif noprogress:
+                why = ("the scenario implies that script code calls tick() (a thread or the main code reaches it without a blocking "
+                       "operation before it), but no call was seen within 5 s while the context was still alive: threads of this "
+                       "evaluation do not run")
             elif returned != "true":
                 why = "risor.Eval did not return within 3 s of the cancellation"
             elif int(lat_us) > 2000000:
@@ -482,6 +672,8 @@ def run(res):
                 pass
             elif not m["complete"]:
                 unexplored.add(c["mkey"])
+            elif noprogress:
+                pass
             elif returned == "true" and ec not in m["results"] and not nomark and not earlydone:
                 corr_diffs.append(dict(info, why="the model allows %s, the implementation returned %s" % (m["results"], ec)))
             elif m["stuck"] != (settled != "true" or t_b != t_c):
@@ -566,12 +758,17 @@ def replay(data):
     if "src" not in d:
         return 0
     line = json.dumps({"id": "replay", "src": d["src"], "instant": d["instant"], "delay_us": d["delay_us"],
-                       "mode": d.get("ended_by", "cancel"), "reps": 4 * int(d.get("repetitions") or 1)})
+                       "mode": d.get("ended_by", "cancel"), "reps": 4 * int(d.get("repetitions") or 1),
+                       "warm": d.get("history", []), "need_ticks": d.get("need_ticks", 0), "route": d.get("route", ""),
+                       "calls": d.get("calls", []), "ctx2": d.get("ctx2", "")})
     bad = 0
     for _ in range(5):
         rc, o, e = run_lines(obs, [line])
         print("implementation now: " + o.strip())
         f = o.strip().split("\t")
-        if len(f) >= 11 and (f[1] != "true" or f[3].split(" ")[0] != "ctx" or f[6] != f[7] or f[10] != "true" or (len(f) > 11 and f[11] != "-")):
+        if len(f) >= 2 and f[1].startswith("WARMFAIL"):
+            bad += 1
+        if len(f) >= 11 and (f[1] != "true" or (f[3].split(" ")[0] != "ctx" and "EARLYDONE" not in f[3]) or f[6] != f[7] or f[10] != "true" or (len(f) > 11 and f[11] != "-")
+                              or "NOPROGRESS" in f[3]):
             bad += 1
     return 1 if bad else 0
